@@ -54,9 +54,17 @@ def generate(tier, rng):
         spec = pc.gen_format(rng)
         try:
             tokens, intent = pc.gen_line(rng, spec, omit_cmd_suffix=(rng.random() < 0.3))
+            # an earlier line for the same format, parsed before on the same parser object
+            prev, _ = pc.gen_line(rng, spec, omit_cmd_suffix=(rng.random() < 0.3))
         except Exception as e:  # generator bug: make it visible
             raise
-        yield {"spec": spec, "tokens": tokens, "intent": intent}
+        yield {"spec": spec, "tokens": tokens, "intent": intent, "prev": prev}
+        if k % 10 == 0:
+            # the bare line after a line that set something (well-formed when nothing is required)
+            cmds, args, opts = pc.spec_flat(spec)
+            if not cmds and not any(a["mode"] in ("required", "multi_required") for a in args) and tokens:
+                empty = dict(intent, args={}, opts={}, sems=[], n_given_cmds=0)
+                yield {"spec": spec, "tokens": [], "intent": empty, "prev": tokens}
 
 
 def exhaustive(tier):
@@ -69,7 +77,9 @@ def run_impl(case):
     flat = pc.flatten(fmt)
     return {"flat": flat,
             "strict": pc.run_parse(DefaultArgsParser(), fmt, case["tokens"], False),
-            "lenient": pc.run_parse(DefaultArgsParser(), fmt, case["tokens"], True)}
+            "lenient": pc.run_parse(DefaultArgsParser(), fmt, case["tokens"], True),
+            "strict_reused": pc.run_reused(fmt, case.get("prev", []), case["tokens"], False),
+            "lenient_reused": pc.run_reused(fmt, case.get("prev", []), case["tokens"], True)}
 
 
 def model_requests(case):
@@ -86,12 +96,15 @@ def model_requests(case):
 
 
 def model_obs(case, answers):
+    # the model's parse is a function of the line: a reused parser object must answer the same
     return {"strict": pc.canon_model_answer(answers[0]), "lenient": pc.canon_model_answer(answers[1]),
+            "strict_reused": pc.canon_model_answer(answers[0]), "lenient_reused": pc.canon_model_answer(answers[1]),
             "meaning_strict": pc.canon_model_answer(answers[2]), "meaning_lenient": pc.canon_model_answer(answers[3])}
 
 
 def impl_view(case, obs):
     return {"strict": obs["strict"], "lenient": obs["lenient"],
+            "strict_reused": obs["strict_reused"], "lenient_reused": obs["lenient_reused"],
             "meaning_strict": obs["strict"], "meaning_lenient": obs["lenient"]}
 
 
@@ -167,17 +180,20 @@ def _default_opt(o):
     return d
 
 
+MODES = ("strict", "lenient", "strict_reused", "lenient_reused")
+
+
 def oracle(case, obs):
     cmds, args, opts = pc.spec_flat(case["spec"])
     try:
         ex_args, ex_opts = expected(case)
     except (ValueError, OverflowError):
         # the assignment has a value that does not convert: the statement requires a ValueError (C02)
-        for mode in ("strict", "lenient"):
+        for mode in MODES:
             if obs[mode].get("err") != "ValueError":
                 return "%s: a value of the assignment does not convert but the result is %s" % (mode, str(obs[mode])[:200])
         return None
-    for mode in ("strict", "lenient"):
+    for mode in MODES:
         r = obs[mode]
         if "err" in r:
             return "%s parse of a well-formed line raised %s" % (mode, r["err"])
